@@ -7,7 +7,7 @@
    chunk > 0.  `eff_bs` is the block size after the source's `block_size == 0` / `length == 0`
    substitutions; requests whose effective block size is below 256 are answered with a failure
    status ("Block size too small"), as before. *)
-From PV Require Import Bytes C32 C32_proofs.
+From PV Require Import Bytes C32_gen C32 C32_proofs.
 Open Scope Z_scope.
 
 (* the answer is the concatenation, over the consecutive blocks
@@ -79,6 +79,20 @@ Theorem C32_whole_file :
   check_file hash chunk file 0 0 0 = Sums (hash file).
 Proof. exact whole_file. Qed.
 Print Assumptions C32_whole_file.
+
+(* tie to the source: the minimum block size regenerated from _check_file's AST on this run is the
+   256 of the property, and the theorems apply to the read chunk size the source uses *)
+Theorem C32_source_constants : MIN_BLOCK = 256 /\ 0 < SOURCE_CHUNK.
+Proof. exact source_constants. Qed.
+Print Assumptions C32_source_constants.
+
+Theorem C32_digests_source :
+  forall (hash : list Z -> list Z) file start length bs,
+  0 <= start ->
+  256 <= eff_bs (Z.of_nat (List.length file)) start length bs ->
+  check_file hash SOURCE_CHUNK file start length bs = Sums (spec_sums hash file start length bs).
+Proof. exact digests_source. Qed.
+Print Assumptions C32_digests_source.
 
 (* what the repair removed: the old inner loop (fixed chunklen, offset += count, no EOF exit)
    never ends once the offset is at or past end of file with bytes still wanted *)
